@@ -766,19 +766,34 @@ Proof.
   destruct (run_sub _ _ _); inversion H; subst; cbn; eauto.
 Qed.
 
+Ltac case_if H := match type of H with (if ?b then _ else _) = _ => destruct b end.
+
+Lemma Continue_inj : forall a b, Continue a = Continue b -> a = b.
+Proof. intros a b X. inversion X. reflexivity. Qed.
+
 Theorem evm_do_create_atomic : forall lim run_sub e s s',
   do_create lim run_sub e s = Continue s' ->
   (exists r, s_stack s' = (CREATE_BASE + (s_ctr s + 1)) :: r) \/ s_world s' = s_world s.
 Proof.
   intros lim run_sub e s s' H. unfold do_create in H.
   destruct (s_stack s) as [|v [|off [|size r]]]; try discriminate.
-  repeat match type of H with
-         | (if ?b then _ else _) = _ => destruct b
-         | halt _ _ = _ => discriminate
-         | Done _ = _ => discriminate
-         end;
-  try (inversion H; subst; cbn; auto; fail).
-  destruct (run_sub _ _ _); inversion H; subst; cbn; eauto.
+  case_if H; [discriminate|].
+  case_if H; [discriminate|].
+  cbv zeta in H.
+  case_if H; [apply Continue_inj in H; rewrite <- H; right; reflexivity|].
+  case_if H; [apply Continue_inj in H; rewrite <- H; right; reflexivity|].
+  case_if H; [apply Continue_inj in H; rewrite <- H; right; reflexivity|].
+  destruct (run_sub _ _ _); cbv beta iota in H.
+  - apply Continue_inj in H.
+    rewrite <- H.
+    left.
+    exists r.
+    cbn [s_stack].
+    reflexivity.
+  - apply Continue_inj in H. rewrite <- H. right. reflexivity.
+  - apply Continue_inj in H. rewrite <- H. right. reflexivity.
+  - discriminate.
+  - discriminate.
 Qed.
 
 (* xfer (no-op on zero) and the interpreter's transfer agree on every balance *)
@@ -789,6 +804,29 @@ Proof.
   apply Z.eqb_eq in E. subst. unfold transfer. rewrite !get_balance_set.
   destruct (a =? to) eqn:E1; destruct (a =? from) eqn:E2;
     try (apply Z.eqb_eq in E1); try (apply Z.eqb_eq in E2); subst;
-    rewrite ?get_balance_set, ?Z.eqb_refl, ?E1, ?E2; try lia.
-  - destruct (to =? from) eqn:E3; [apply Z.eqb_eq in E3; subst; lia | lia].
+    rewrite ?get_balance_set, ?Z.eqb_refl, ?E1, ?E2; try lia;
+    try (destruct (to =? from) eqn:E3; [apply Z.eqb_eq in E3; subst; lia | lia]).
+Qed.
+
+(* statement shapes used by Props/C09.v *)
+Lemma mframe_refines_supported : forall s c w ctr r ctr' lg,
+  supported s = true -> c_depth c <= MAX_DEPTH ->
+  sframe s c w ctr = (r, ctr', lg) -> clean lg = true ->
+  mframe s c (mstate_of w ctr) <> [] /\
+  Forall (fun m : mres => R m (r, ctr', lg)) (mframe s c (mstate_of w ctr)).
+Proof. intros s c w ctr r ctr' lg _ Hd Hs Hc. exact (mframe_refines s c w ctr r ctr' lg Hd Hs Hc). Qed.
+
+Lemma model_static_all : forall c st ob l, c_static c = true ->
+  (forall k v rest, mexec (SSstore k v rest) c st ob l = [(FHalt, st, [LEnd FHalt])]) /\
+  (forall k v rest, mexec (STstore k v rest) c st ob l = [(FHalt, st, [LEnd FHalt])]) /\
+  (forall rest, mexec (SLog rest) c st ob l = [(FHalt, st, [LEnd FHalt])]) /\
+  (forall v ic init rest, mexec (SCreate v ic init rest) c st ob l = [(FHalt, st, [LEnd FHalt])]) /\
+  (forall kd, msg_static (op_of kd) true = true) /\ (forall b, msg_static (op_of KStatic) b = true).
+Proof.
+  intros c st ob l H.
+  split; [intros; apply model_static_sstore; exact H|].
+  split; [intros; apply model_static_tstore; exact H|].
+  split; [intros; apply model_static_log; exact H|].
+  split; [intros; apply model_static_create; exact H|].
+  split; [intros kd; exact (proj1 (model_static_inherited kd true)) | intros b; exact (proj2 (model_static_inherited KCall b))].
 Qed.
